@@ -233,6 +233,76 @@ pub fn run(prop: &'static str, tier: &str) -> i32 {
         all.merge(a);
     }
 
+    // phase 4c: at the builder layers "the message" is a set of claims. Structured claim sets (values shaped like
+    // their own key, deep / empty containers, number classes, escapes, many claims, unusual keys) must come back
+    // from the matching parser member for member
+    {
+        let units: Vec<(Proto, Layer)> = protos.iter().flat_map(|p| [Layer::Generic, Layer::Prelude].into_iter().map(move |l| (*p, l))).collect();
+        let accs = par_units(&units, |(p, l)| {
+            let al = full_alphabet(*p, true);
+            let mut acc = Acc::default();
+            let seed = if p.is_local() { Some(al.seeds[2].as_slice()) } else { None };
+            for (si, set) in claim_sets().iter().enumerate() {
+                acc.executions += 1;
+                acc.choice_points += 1;
+                acc.impl_calls += 2;
+                let fail = |acc: &mut Acc, kind: &str, what: String| {
+                    acc.violate(
+                        format!("{}|{}/{}|claim-set-{}|{}", prop, p.name(), l.name(), si, kind),
+                        what,
+                        json!({"claim_set": {"proto": p.name(), "layer": l.name(), "key": al.keys[0].label, "set": si}}),
+                    );
+                };
+                let tok = match crate::adapter::issue(*p, *l, &al.keys[0].sk, seed, "m", set, Some("f"), None) {
+                    Out::Ok(t) => t,
+                    Out::Err(e) => {
+                        fail(&mut acc, "build-failed", format!("building a token from claim set #{} ({}) failed: {}", si, describe_set(set), e.short()));
+                        continue;
+                    }
+                    Out::Panic(loc) => {
+                        fail(&mut acc, "build-panic", format!("building a token from claim set #{} panicked at {}", si, loc));
+                        continue;
+                    }
+                };
+                acc.see(&tok);
+                match crate::adapter::present(*p, *l, &al.keys[0].pk, &tok, Some("f"), None).0 {
+                    Out::Ok(crate::adapter::Opened::Json(v, _)) => {
+                        let mut ok = v.get("data") == Some(&serde_json::Value::String("m".into()));
+                        let mut why = String::new();
+                        for c in set {
+                            let want = c.expected_json();
+                            if v.get(&c.key) != Some(&want) {
+                                ok = false;
+                                why = format!("claim {:?}: built from {} but the parser returned {}", c.key, want, v.get(&c.key).map_or("no such member".to_string(), |x| x.to_string()));
+                                break;
+                            }
+                        }
+                        if ok && *l == Layer::Generic {
+                            let n = v.as_object().map_or(0, |o| o.len());
+                            if n != set.len() + 1 {
+                                ok = false;
+                                why = format!("{} members returned for {} claims set", n, set.len() + 1);
+                            }
+                        }
+                        if ok {
+                            acc.controls_ok += 1;
+                            acc.bump("claim-set:round-trip-ok");
+                        } else {
+                            fail(&mut acc, "different-content", format!("claim set #{} did not come back as built: {}", si, why));
+                        }
+                    }
+                    Out::Ok(_) => fail(&mut acc, "harness", "parser layer returned a message".into()),
+                    Out::Err(e) => fail(&mut acc, "rejected", format!("the matching parser rejected the token built from claim set #{} ({}): {}", si, describe_set(set), e.short())),
+                    Out::Panic(loc) => fail(&mut acc, "parse-panic", format!("parsing the token built from claim set #{} panicked at {}", si, loc)),
+                }
+            }
+            acc
+        });
+        let a = Acc::merge_all(accs);
+        phases.push(json!({"phase": "structured claim sets through the builder layers", "executions": a.executions, "claim_sets": claim_sets().len()}));
+        all.merge(a);
+    }
+
     // phase 5: object reuse - one builder building several tokens while being reconfigured, one parser
     // parsing several tokens while being reconfigured / handed different keys: every authentic presentation
     // must still be accepted with the original content
@@ -269,9 +339,51 @@ pub fn run(prop: &'static str, tier: &str) -> i32 {
     )
 }
 
+fn describe_set(set: &[crate::adapter::ClaimSpec]) -> String {
+    let v: Vec<String> = set.iter().take(4).map(|c| format!("{:?}: {}", c.key, { let t = c.expected_json().to_string(); if t.len() > 60 { format!("{}...", t.chars().take(60).collect::<String>()) } else { t } })).collect();
+    format!("{}{}", v.join(", "), if set.len() > 4 { ", ..." } else { "" })
+}
+
+/// Claim sets for phase 4c (keys are never registered claim names and never `data` / `vcount`).
+pub fn claim_sets() -> Vec<Vec<crate::adapter::ClaimSpec>> {
+    use crate::adapter::ClaimSpec as C;
+    let mut deep = json!(1);
+    for i in 0..40 {
+        deep = if i % 2 == 0 { json!({ "n": deep }) } else { json!([deep]) };
+    }
+    let mut sets: Vec<Vec<C>> = vec![
+        // a value shaped like the claim's own serialised form {key: value}
+        vec![C::auto("k", json!({"k": "v"}))],
+        vec![C::auto("k", json!({"k": {"k": {"k": 1}}})), C::auto("j", json!({"k": 2}))],
+        vec![C::auto("role", json!({"role": null})), C::auto("r2", json!({"r2": []}))],
+        // containers
+        vec![C::auto("a", json!([])), C::auto("o", json!({})), C::auto("s", json!("")), C::auto("aa", json!([[], [[]], {}])), C::auto("deep", deep)],
+        vec![C::auto("list", json!([{"list": 1}, "list", ["list"]])), C::auto("nul", json!(null))],
+        // number classes
+        vec![
+            C::auto("u", json!(u64::MAX)), C::auto("i", json!(i64::MIN)), C::auto("z", json!(0)), C::auto("f", json!(1.5)), C::auto("big", json!(1e300)),
+            C::auto("tiny", json!(5e-324)), C::auto("neg", json!(-1)), C::auto("p53", json!(9007199254740993u64)), C::auto("third", json!(0.1)),
+        ],
+        vec![C::auto("t", json!(true)), C::auto("ff", json!(false)), C::auto("strue", json!("true")), C::auto("snum", json!("12")), C::auto("snull", json!("null"))],
+        // texts
+        vec![C::auto("esc", json!("\"\\/\u{8}\u{c}\n\r\t\u{0}\u{1f}\u{7f}\u{2028}\u{2029}\u{1f600}\u{fffd}\u{feff}")), C::auto("json", json!("{\"exp\":\"x\"}")), C::auto("tok", json!("v4.local.AAAA.BBBB"))],
+        // keys
+        vec![
+            C::auto("Data", json!(1)), C::auto("data2", json!(2)), C::auto(" ", json!(3)), C::auto("\u{43a}\u{43b}\u{44e}\u{447}", json!(4)), C::auto("a.b", json!(5)), C::auto("a/b", json!(6)),
+            C::auto("$ref", json!(7)), C::auto("__proto__", json!(8)), C::auto("0", json!(9)), C::auto("EXP", json!(10)), C::auto("exp ", json!(11)), C::auto("k\"q", json!(12)), C::auto("k\\", json!(13)),
+        ],
+    ];
+    // many claims, given in descending key order
+    sets.push((0..64).rev().map(|i| C::auto(&format!("k{:02}", i), json!({"i": i, "s": format!("v{}", i)}))).collect());
+    sets
+}
+
 pub fn replay(prop: &'static str, case: &serde_json::Value) -> i32 {
     if case.get("reuse_case").is_some() {
         return crate::props::reuse::replay(prop, case, &[crate::props::reuse::Dim::RoundTrip]);
+    }
+    if let Some(cs) = case.get("claim_set") {
+        return replay_claim_set(prop, cs);
     }
     let Ok(ic) = serde_json::from_value::<IssueCase>(case["issue"].clone()) else {
         crate::report::machinery_error("replay file has no `issue` case");
@@ -294,4 +406,33 @@ pub fn replay(prop: &'static str, case: &serde_json::Value) -> i32 {
     } else {
         1
     }
+}
+
+fn replay_claim_set(prop: &'static str, cs: &serde_json::Value) -> i32 {
+    let Some(p) = Proto::ALL.iter().copied().find(|p| Some(p.name()) == cs["proto"].as_str()) else { crate::report::machinery_error("claim_set replay: unknown protocol") };
+    let Some(l) = Layer::ALL.iter().copied().find(|l| Some(l.name()) == cs["layer"].as_str()) else { crate::report::machinery_error("claim_set replay: unknown layer") };
+    let si = cs["set"].as_u64().unwrap_or(0) as usize;
+    let sets = claim_sets();
+    let Some(set) = sets.get(si) else { crate::report::machinery_error("claim_set replay: no such set") };
+    let al = full_alphabet(p, true);
+    let seed = if p.is_local() { Some(al.seeds[2].as_slice()) } else { None };
+    let tok = crate::adapter::issue(p, l, &al.keys[0].sk, seed, "m", set, Some("f"), None);
+    println!("claim set #{}: {}", si, describe_set(set));
+    let Out::Ok(tok) = tok else {
+        println!("VIOLATION property={} replay=(this file)\n  what: build failed / panicked: {:?}", prop, tok);
+        return 1;
+    };
+    let (o, _) = crate::adapter::present(p, l, &al.keys[0].pk, &tok, Some("f"), None);
+    if let Out::Ok(crate::adapter::Opened::Json(v, _)) = &o {
+        let same = v.get("data") == Some(&serde_json::Value::String("m".into())) && set.iter().all(|c| v.get(&c.key) == Some(&c.expected_json()));
+        let count_ok = l != Layer::Generic || v.as_object().map_or(0, |m| m.len()) == set.len() + 1;
+        if same && count_ok {
+            println!("replay: property holds on this case");
+            return 0;
+        }
+        println!("VIOLATION property={} replay=(this file)\n  what: parser returned {}", prop, v);
+        return 1;
+    }
+    println!("VIOLATION property={} replay=(this file)\n  what: {:?}", prop, o);
+    1
 }
